@@ -352,6 +352,24 @@ func (t *FnTrans) edge(from, to *ssa.BasicBlock, cond string, st *HeapState) {
 				}
 				t.addObl("inv-step", fmt.Sprintf("loop%d:%s", li.ordinal, lbl), cond, Formula{Clause: c, Env: env}, token.NoPos, c.Text)
 			}
+			if li.spec.Decreases != nil && li.decHead != "" {
+				// termination: on every way back to the loop head the measure is
+				// smaller than it was at the head, and it was not negative there
+				func() {
+					defer func() {
+						if r := recover(); r != nil {
+							if _, ok := r.(*exprError); ok {
+								return
+							}
+							panic(r)
+						}
+					}()
+					if term, ok := t.toIdx(env.eval(li.spec.Decreases.Expr)); ok {
+						z := t.mode.intLit64(0, 64)
+						t.addObl("decreases", fmt.Sprintf("loop%d", li.ordinal), cond, Formula{Raw: and(t.cmpIdx("<", term, li.decHead), t.cmpIdx(">=", li.decHead, z))}, token.NoPos, li.spec.Decreases.Text)
+					}
+				}()
+			}
 		}
 		return
 	}
